@@ -689,9 +689,21 @@ fn exec_reload(docs: &str, init: &str, steps: &str) -> String {
         None => return "bad-case".to_owned(),
     };
     let f: Vec<&str> = init.split(':').collect();
-    if f.len() != 3 && f.len() != 4 {
+    if f.len() < 3 || f.len() > 5 {
         return "bad-case".to_owned();
     }
+    // optional 5th component `e<doc>.<mtime>`: an edit that lands while the reloader is being
+    // initialised, between its two looks at the file (hook point "init_file:between-read-and-stat")
+    let init_edit: Option<(usize, u64)> = match f.get(4) {
+        None => None,
+        Some(e) => match e.strip_prefix('e').and_then(|r| r.split_once('.')) {
+            Some((d, m)) => match (d.parse::<usize>(), m.parse::<u64>()) {
+                (Ok(d), Ok(m)) if d < docs.len() => Some((d, m)),
+                _ => return "bad-case".to_owned(),
+            },
+            None => return "bad-case".to_owned(),
+        },
+    };
     // optional 4th component: path kind (default: plain file)
     let pk = match f.get(3) {
         None => 'f',
@@ -753,7 +765,20 @@ fn exec_reload(docs: &str, init: &str, steps: &str) -> String {
             .unwrap();
         let logger = log4rs::Logger::new(empty);
         let handle = logger.verif_handle();
-        let (config, rate0, mut rel) = match log4rs::verif_hooks::VerifReloader::new(&path, des, handle.clone()) {
+        if let Some((d, m)) = init_edit {
+            let bytes = render_doc(&docs[d]).into_bytes();
+            let target = lay.target();
+            log4rs::verif_hooks::set_critical_section_point(Some(Arc::new(move |tag: &str| {
+                if tag.starts_with("init_file:") {
+                    put_file(&target, &bytes, m);
+                }
+            })));
+        }
+        let made = log4rs::verif_hooks::VerifReloader::new(&path, des, handle.clone());
+        if init_edit.is_some() {
+            log4rs::verif_hooks::set_critical_section_point(None);
+        }
+        let (config, rate0, mut rel) = match made {
             Ok(x) => x,
             Err(_) => return "init-err".to_owned(),
         };
@@ -816,6 +841,7 @@ pub fn exec(fields: &[&str]) -> String {
         ["stress", cfgs, n_log, n_rec, iters, probes] => exec_stress(cfgs, n_log, n_rec, iters, probes),
         ["reload", docs, init, steps] => exec_reload(docs, init, steps),
         ["thread", docs, hists] => exec_thread(docs, hists),
+        ["race", cfgs, sched, probes] => exec_race(cfgs, sched, probes),
         _ => "bad-case".to_owned(),
     }
 }
@@ -1003,6 +1029,20 @@ fn gen_reload_deterministic(emit: &mut dyn FnMut(String)) {
         emit(format!("reload\t{}\t0:10:0:l\t{}", docs, h));
         emit(format!("reload\t{}\t0:10:0:d\t{}", docs, h));
     }
+    // an edit landing INSIDE the initialisation, between its two looks at the file
+    for pk in ["f", "l"] {
+        for (e, h) in [
+            ("e1.11", "w:1:11"),               // B written (mtime 11) while A (mtime 10) is being loaded
+            ("e1.11", "w:1:11,w:1:12,w:0:13"), // … picked up only when the mtime moves again
+            ("e1.10", "w:1:10,w:1:11"),        // the racing edit keeps the mtime (a same-mtime edit)
+            ("e2.11", "w:2:11,w:0:12"),        // racing edit to a broken file
+            ("e4.11", "w:4:11,w:1:12"),        // same configuration, other text
+            ("e0.11", "w:0:11,w:1:12"),        // racing touch
+        ] {
+            emit(format!("reload\t{}\t0:10:0:{}:{}\t{}", docs, pk, e, h));
+            emit(format!("reload\t{}\t0:10:1:{}:{}\t{}", docs, pk, e, h)); // without mtimes nothing is missed
+        }
+    }
     // re-pointing the link (ConfigMap / current -> releases/N): the path denotes another file
     for pk in ["f", "l", "d"] {
         for h in ["p:1:11,w:4:12,p:0:13", "p:1:10,p:1:11", "w:1:11,p:1:12,w:0:12,w:0:13", "x,p:1:11,w:2:12,p:0:13", "d:11,p:1:12,w:0:13"] {
@@ -1090,11 +1130,18 @@ fn gen_reload_random(rng: &mut Rng, thorough: bool, emit: &mut dyn FnMut(String)
             }
         }
     }
+    let init_edit = if rng.chance(1, 10) {
+        // the first step of the history repeats what the racing edit left behind, or not
+        format!(":e{}.{}", rng.below(nd as u64), 10 + rng.below(2))
+    } else {
+        String::new()
+    };
     emit(format!(
-        "reload\t{}\t0:10:{}:{}\t{}",
+        "reload\t{}\t0:10:{}:{}{}\t{}",
         docs.iter().map(enc_doc).collect::<Vec<_>>().join(";"),
         enc_bool(forget),
         pk,
+        init_edit,
         steps.join(",")
     ));
 }
@@ -1139,6 +1186,9 @@ fn gen_thread_deterministic(emit: &mut dyn FnMut(String)) {
         "0:10:f:p>w:9:11,w:0:12",             // lossy config (reported, applied), then a change
         "0:10:l:p>w:2:11,p:1:12,x,w:7:13",    // both: link + closed stderr
         "0:10:f:p>w:1:11,w:7:12",             // control: nothing to report
+        // an edit landing inside init_file, between its two looks at the file
+        "0:10:f:n:e1.11>w:1:11,w:7:12",
+        "0:10:l:n:e7.11>w:7:11,w:7:12",
     ];
     emit(format!("thread\t{}\t{}", THREAD_DOCS, hist.join("|")));
 }
@@ -1213,7 +1263,76 @@ fn gen_thread_random(rng: &mut Rng, emit: &mut dyn FnMut(String)) {
     emit(format!("thread\t{}\t{}", THREAD_DOCS, hs.join("|")));
 }
 
+/// all interleavings of the two writes (a<k> = set_max_level of call k, s<k> = its store)
+fn race_interleavings(calls: &[usize]) -> Vec<Vec<String>> {
+    fn go(pending: &mut Vec<(usize, u8)>, cur: &mut Vec<String>, out: &mut Vec<Vec<String>>) {
+        if pending.iter().all(|p| p.1 == 2) {
+            out.push(cur.clone());
+            return;
+        }
+        for i in 0..pending.len() {
+            let (k, st) = pending[i];
+            if st < 2 {
+                pending[i].1 += 1;
+                cur.push(format!("{}{}", if st == 0 { "a" } else { "s" }, k));
+                go(pending, cur, out);
+                cur.pop();
+                pending[i].1 -= 1;
+            }
+        }
+    }
+    let mut pending: Vec<(usize, u8)> = calls.iter().map(|k| (*k, 0)).collect();
+    let mut out = vec![];
+    go(&mut pending, &mut vec![], &mut out);
+    out
+}
+
+fn gen_race(rng: &mut Rng, thorough: bool, emit: &mut dyn FnMut(String)) {
+    // configurations differing in their max level: 0 = the installed one
+    let sets: Vec<(Vec<MiniCfg>, &str)> = vec![
+        (
+            vec![
+                MiniCfg { table: vec![10], root_level: 3, root_apps: vec![10], loggers: vec![] },
+                MiniCfg { table: vec![20], root_level: 5, root_apps: vec![20], loggers: vec![] },
+                MiniCfg { table: vec![30], root_level: 1, root_apps: vec![30], loggers: vec![] },
+                MiniCfg { table: vec![40, 41], root_level: 2, root_apps: vec![41, 40], loggers: vec![] },
+            ],
+            "0.1,0.2,0.3,0.4,0.5",
+        ),
+        (
+            vec![
+                MiniCfg { table: vec![10, 11], root_level: 2, root_apps: vec![10], loggers: vec![(7, 5, vec![11])] },
+                MiniCfg { table: vec![20], root_level: 1, root_apps: vec![20], loggers: vec![] },
+                MiniCfg { table: vec![30, 31], root_level: 4, root_apps: vec![31], loggers: vec![(7, 0, vec![30])] },
+                MiniCfg { table: vec![], root_level: 0, root_apps: vec![], loggers: vec![] },
+            ],
+            "0.1,0.3,0.5,7.1,7.3,7.5",
+        ),
+    ];
+    for (cfgs, probes) in &sets {
+        let enc3 = cfgs[..3].iter().map(enc_cfg).collect::<Vec<_>>().join("|");
+        let enc4 = cfgs.iter().map(enc_cfg).collect::<Vec<_>>().join("|");
+        // two calls: all 6 interleavings, both role assignments
+        for il in race_interleavings(&[1, 2]) {
+            emit(format!("race\t{}\t{}\t{}", enc3, il.join(","), probes));
+        }
+        for il in race_interleavings(&[2, 3]) {
+            emit(format!("race\t{}\t{}\t{}", enc4, il.join(","), probes));
+        }
+        // three calls: 90 interleavings; a sample in the quick tier
+        let mut all = race_interleavings(&[1, 2, 3]);
+        if !thorough {
+            rng.shuffle(&mut all);
+            all.truncate(12);
+        }
+        for il in all {
+            emit(format!("race\t{}\t{}\t{}", enc4, il.join(","), probes));
+        }
+    }
+}
+
 pub fn gen(rng: &mut Rng, n: usize, thorough: bool, emit: &mut dyn FnMut(String)) {
+    gen_race(rng, thorough, emit);
     gen_swap_deterministic(emit);
     gen_reload_deterministic(emit);
     gen_stress(rng, thorough, emit);
@@ -1419,22 +1538,47 @@ fn child_thread(docs: &str, hist: &str, dir: &str) -> Result<String, String> {
     let docs: Vec<Doc> = dec_list('/', docs).iter().map(|d| dec_doc(d)).collect::<Option<_>>().ok_or("docs")?;
     let (init, steps) = hist.split_once('>').ok_or("history")?;
     let f: Vec<&str> = init.split(':').collect();
-    if f.len() != 2 && f.len() != 4 {
+    if f.len() != 2 && f.len() != 4 && f.len() != 5 {
         return Err("init".to_owned());
     }
+    // optional 5th component `e<doc>.<mtime>`: an edit landing inside init_file, between its two
+    // looks at the file
+    let init_edit: Option<(usize, u64)> = match f.get(4) {
+        None => None,
+        Some(e) => {
+            let (d, m) = e.strip_prefix('e').and_then(|r| r.split_once('.')).ok_or("init edit")?;
+            let d: usize = d.parse().map_err(|_| "init edit")?;
+            let m: u64 = m.parse().map_err(|_| "init edit")?;
+            if d >= docs.len() {
+                return Err("init edit".to_owned());
+            }
+            Some((d, m))
+        }
+    };
     let d0: usize = f[0].parse().map_err(|_| "init")?;
     let m0: u64 = f[1].parse().map_err(|_| "init")?;
     if d0 >= docs.len() {
         return Err("init".to_owned());
     }
     // optional: path kind, stderr kind (the latter is the parent's business)
-    let pk = if f.len() == 4 { f[2].chars().next().unwrap_or('?') } else { 'f' };
+    let pk = if f.len() >= 4 { f[2].chars().next().unwrap_or('?') } else { 'f' };
     let mut lay = Layout::new(Path::new(dir), pk, true).ok_or("path kind")?;
     let path = lay.path();
     lay.put(render_doc_unit(&docs[d0], "ms").as_bytes(), m0);
     let mut des = log4rs::config::Deserializers::default();
     des.insert("tagged", RTaggedDeserializer(Arc::new(AtomicUsize::new(0))));
-    if log4rs::init_file(&path, des).is_err() {
+    if let Some((d, m)) = init_edit {
+        let bytes = render_doc_unit(&docs[d], "ms").into_bytes();
+        let target = lay.target();
+        log4rs::verif_hooks::set_critical_section_point(Some(Arc::new(move |tag: &str| {
+            if tag.starts_with("init_file:") {
+                put_file_atomic(&target, &bytes, m);
+            }
+        })));
+    }
+    let inited = log4rs::init_file(&path, des);
+    log4rs::verif_hooks::set_critical_section_point(None);
+    if inited.is_err() {
         return Ok("init-err".to_owned());
     }
     // give `thread::Builder::spawn` a moment to name the thread
@@ -1480,10 +1624,16 @@ fn child_thread(docs: &str, hist: &str, dir: &str) -> Result<String, String> {
 
 /// child-process entry point: `verif-harness child c15 thread <docs> <history> <scratch dir>`
 pub fn child(args: &[String]) -> i32 {
-    if args.len() != 4 || args[0] != "thread" {
+    if args.len() != 4 || (args[0] != "thread" && args[0] != "race") {
         return 2;
     }
-    let r = guarded(std::panic::AssertUnwindSafe(|| child_thread(&args[1], &args[2], &args[3])));
+    let r = guarded(std::panic::AssertUnwindSafe(|| {
+        if args[0] == "thread" {
+            child_thread(&args[1], &args[2], &args[3])
+        } else {
+            child_race(&args[1], &args[2], &args[3])
+        }
+    }));
     let obs = match r {
         Ok(Ok(s)) => s,
         Ok(Err(e)) => format!("ERROR:{}", e),
@@ -1491,4 +1641,247 @@ pub fn child(args: &[String]) -> i32 {
     };
     println!("{}", obs);
     0
+}
+
+// ---------------------------------------------------------------------------------------------
+// racing `set_config` calls, observed through the `log` facade (child process: the logger is
+// installed globally, records go through the `log!` macro and its `max_level()` gate)
+// ---------------------------------------------------------------------------------------------
+fn exec_race(cfgs: &str, sched: &str, probes: &str) -> String {
+    let exe = match std::env::current_exe() {
+        Ok(e) => e,
+        Err(_) => return "ERROR:current_exe".to_owned(),
+    };
+    let ch = std::process::Command::new(&exe)
+        .args(["child", "c15", "race", cfgs, sched, probes])
+        .stdin(std::process::Stdio::null())
+        .stdout(std::process::Stdio::piped())
+        .stderr(std::process::Stdio::null())
+        .spawn();
+    let mut ch = match ch {
+        Ok(c) => c,
+        Err(_) => return "ERROR:spawn".to_owned(),
+    };
+    let deadline = Instant::now() + Duration::from_secs(60);
+    loop {
+        match ch.try_wait() {
+            Ok(Some(st)) => {
+                let mut text = String::new();
+                if let Some(mut o) = ch.stdout.take() {
+                    use std::io::Read;
+                    let _ = o.read_to_string(&mut text);
+                }
+                let line = text.lines().next().unwrap_or("").trim().to_owned();
+                return if !st.success() || line.is_empty() { format!("ABORT:{:?}", st.code()) } else { line };
+            }
+            Ok(None) => {
+                if Instant::now() > deadline {
+                    let _ = ch.kill();
+                    let _ = ch.wait();
+                    return "TIMEOUT".to_owned();
+                }
+                std::thread::sleep(Duration::from_millis(2));
+            }
+            Err(_) => return "ERROR:wait".to_owned(),
+        }
+    }
+}
+
+thread_local! {
+    static RACE_ID: std::cell::Cell<usize> = std::cell::Cell::new(usize::MAX);
+}
+
+/// phases of one `set_config` call: 0 not started, 1 told to start, 5 inside `set_config` before the
+/// hook point, 2 stopped at the hook point between `log::set_max_level` and `store`, 3 released
+/// from it, 4 returned
+struct RaceCtl {
+    phase: Mutex<Vec<u8>>,
+    tids: Mutex<Vec<i64>>,
+    cv: std::sync::Condvar,
+    drain: AtomicBool,
+}
+
+/// scheduler state of a thread of this process, from /proc (`R` running/runnable, `S` sleeping …)
+fn task_state(tid: i64) -> Option<char> {
+    let st = std::fs::read_to_string(format!("/proc/self/task/{}/stat", tid)).ok()?;
+    st.rsplit_once(')')?.1.trim_start().chars().next()
+}
+
+/// Wait until every call that has entered `set_config` has either reached the hook point or is
+/// BLOCKED (sleeping, three samples in a row, without having reached it - which only happens when
+/// `set_config` is serialised by a lock that another call holds). No fixed time-out decides
+/// this, so a starved but runnable thread is simply waited for.
+fn race_settle(ctl: &RaceCtl) {
+    let deadline = Instant::now() + Duration::from_secs(30);
+    let mut asleep = 0;
+    while Instant::now() < deadline {
+        let entering: Vec<usize> = {
+            let ph = ctl.phase.lock().unwrap();
+            (0..ph.len()).filter(|k| ph[*k] == 1 || ph[*k] == 5).collect()
+        };
+        if entering.is_empty() {
+            return;
+        }
+        let tids = ctl.tids.lock().unwrap().clone();
+        let all_blocked = entering.iter().all(|k| {
+            let ph = ctl.phase.lock().unwrap()[*k];
+            ph == 5 && tids[*k] != 0 && task_state(tids[*k]) == Some('S')
+        });
+        if all_blocked {
+            asleep += 1;
+            if asleep >= 3 {
+                return;
+            }
+        } else {
+            asleep = 0;
+        }
+        std::thread::sleep(Duration::from_millis(4));
+    }
+}
+
+fn child_race(cfgs: &str, sched: &str, probes: &str) -> Result<String, String> {
+    let cfgs = dec_cfgs(cfgs).ok_or("cfgs")?;
+    let ncfg = cfgs.len();
+    let mut events: Vec<(char, usize)> = vec![];
+    for e in dec_list(',', sched) {
+        let (c, k) = e.split_at(1);
+        let k: usize = k.parse().map_err(|_| "schedule")?;
+        if !(c == "a" || c == "s") || k == 0 || k >= ncfg {
+            return Err("schedule".to_owned());
+        }
+        events.push((c.chars().next().unwrap(), k));
+    }
+    let probes: Vec<(u64, u64)> = dec_list(',', probes)
+        .iter()
+        .map(|p| {
+            let (t, l) = p.split_once('.')?;
+            Some((t.parse().ok()?, l.parse().ok()?))
+        })
+        .collect::<Option<_>>()
+        .ok_or("probes")?;
+    let ctx = Arc::new(Ctx { cfgs, scripts: vec![], logger: Mutex::new(None), handle: Mutex::new(None) });
+    let handle = log4rs::init_config(build_config(&ctx, 0)).map_err(|e| e.to_string())?;
+    let ctl = Arc::new(RaceCtl {
+        phase: Mutex::new(vec![0; ncfg]),
+        tids: Mutex::new(vec![0; ncfg]),
+        cv: std::sync::Condvar::new(),
+        drain: AtomicBool::new(false),
+    });
+    {
+        let ctl = ctl.clone();
+        log4rs::verif_hooks::set_critical_section_point(Some(Arc::new(move |tag: &str| {
+            if tag != "set_config:between-max-level-and-store" {
+                return;
+            }
+            let k = RACE_ID.with(|c| c.get());
+            if k == usize::MAX {
+                return;
+            }
+            let mut ph = ctl.phase.lock().unwrap();
+            ph[k] = 2;
+            ctl.cv.notify_all();
+            while ph[k] != 3 && !ctl.drain.load(Ordering::SeqCst) {
+                ph = ctl.cv.wait(ph).unwrap();
+            }
+        })));
+    }
+    let mut threads = vec![];
+    for k in 1..ncfg {
+        let (ctl, ctx, handle) = (ctl.clone(), ctx.clone(), handle.clone());
+        threads.push(std::thread::spawn(move || {
+            let cfg = build_config(&ctx, k);
+            {
+                let mut ph = ctl.phase.lock().unwrap();
+                while ph[k] != 1 && !ctl.drain.load(Ordering::SeqCst) {
+                    ph = ctl.cv.wait(ph).unwrap();
+                }
+                if ph[k] != 1 {
+                    return;
+                }
+                ctl.tids.lock().unwrap()[k] = unsafe { libc::syscall(libc::SYS_gettid) } as i64;
+                ph[k] = 5;
+            }
+            RACE_ID.with(|c| c.set(k));
+            handle.set_config(cfg);
+            let mut ph = ctl.phase.lock().unwrap();
+            ph[k] = 4;
+            ctl.cv.notify_all();
+        }));
+    }
+    let observe = |ctl: &RaceCtl| -> String {
+        let ph = ctl.phase.lock().unwrap().clone();
+        let list = |want: u8| -> String {
+            let v: Vec<String> = (1..ncfg).filter(|k| ph[*k] == want).map(|k| k.to_string()).collect();
+            if v.is_empty() { "~".to_owned() } else { v.join("+") }
+        };
+        let mut ds = vec![];
+        for (t, l) in &probes {
+            reset_thread_state();
+            STACK.with(|s| s.borrow_mut().push(0));
+            let target = format!("t{}", t);
+            log::log!(target: &target, level(*l), "probe");
+            STACK.with(|s| s.borrow_mut().pop());
+            let items = TRACE.with(|t| t.borrow().clone());
+            ds.push(render_deliveries(&items));
+        }
+        format!("{}:{}:{}:{}", log::max_level() as usize, list(2), list(4), ds.join("/"))
+    };
+    let wait_until = |ctl: &RaceCtl, ms: u64, pred: &dyn Fn(&Vec<u8>) -> bool| {
+        let deadline = Instant::now() + Duration::from_millis(ms);
+        let mut ph = ctl.phase.lock().unwrap();
+        while !pred(&ph) {
+            let now = Instant::now();
+            if now >= deadline {
+                break;
+            }
+            ph = ctl.cv.wait_timeout(ph, deadline - now).unwrap().0;
+        }
+    };
+    let mut out = vec![observe(&ctl)];
+    for (c, k) in events {
+        if c == 'a' {
+            let fresh = {
+                let mut ph = ctl.phase.lock().unwrap();
+                if ph[k] == 0 {
+                    ph[k] = 1;
+                    ctl.cv.notify_all();
+                    true
+                } else {
+                    false
+                }
+            };
+            if fresh {
+                race_settle(&ctl);
+            }
+        } else {
+            let at_hook = {
+                let mut ph = ctl.phase.lock().unwrap();
+                if ph[k] == 2 {
+                    ph[k] = 3;
+                    ctl.cv.notify_all();
+                    true
+                } else {
+                    false
+                }
+            };
+            if at_hook {
+                wait_until(&ctl, 30000, &|ph| ph[k] == 4);
+                // a call that was blocked behind this one (serialised set_config) now proceeds
+                race_settle(&ctl);
+            }
+        }
+        out.push(observe(&ctl));
+    }
+    // let everything finish
+    ctl.drain.store(true, Ordering::SeqCst);
+    {
+        let _g = ctl.phase.lock().unwrap();
+        ctl.cv.notify_all();
+    }
+    for t in threads {
+        let _ = t.join();
+    }
+    log4rs::verif_hooks::set_critical_section_point(None);
+    drop_ctx(&ctx);
+    Ok(out.join(";"))
 }
